@@ -166,5 +166,5 @@ class ExtractLociStep(FragmentContract):
 
 
 def register(world):
-    world.contracts[ReadMemeStep.key] = ReadMemeStep()
-    world.contracts[ExtractLociStep.key] = ExtractLociStep()
+    world.register_fragment(ReadMemeStep())
+    world.register_fragment(ExtractLociStep())
